@@ -511,8 +511,28 @@ func (h *hist) collect() {
 
 // classifySecondPass explains the differences between the snapshots before and after a second collection.
 func (h *hist) classifySecondPass(a, b vh.Snap) (known, unknown []string) {
+	return h.classifyDiff(a, b, nil)
+}
+
+// classifyDiff explains the differences between two snapshots.  alt, when given, is the model of the twin that
+// produced snapshot a (C10): a manifest that this history's model has already given up (it was not constrained by
+// the collection specification) but the twin still has is K1 if, put back as an adopted child, nothing with an
+// entry of its own derives it.
+func (h *hist) classifyDiff(a, b vh.Snap, alt *vh.RepoModel) (known, unknown []string) {
 	w := h.w
 	m := w.Repos["r"]
+	orphanIfAdopted := func(mm *vh.Man) bool {
+		if alt == nil || alt.Mans[mm.D] == nil || !alt.Adopted[mm.D] || m.Mans[mm.D] != nil {
+			return false
+		}
+		m.Mans[mm.D] = mm
+		old := m.Adopted[mm.D]
+		m.Adopted[mm.D] = true
+		o := h.orphans()[mm.D]
+		delete(m.Mans, mm.D)
+		m.Adopted[mm.D] = old
+		return o
+	}
 	changed := map[string]bool{}
 	lostContent := map[string]bool{}
 	h.rm0 = nil
@@ -524,7 +544,7 @@ func (h *hist) classifySecondPass(a, b vh.Snap) (known, unknown []string) {
 		}
 		changed[d] = true
 		switch {
-		case a.Man[d] == "ok" && b.Man[d] == "404" && m.Mans[d] != nil && (orph[d] || h.k6Vulnerable(mm)):
+		case a.Man[d] == "ok" && b.Man[d] == "404" && ((m.Mans[d] != nil && (orph[d] || h.k6Vulnerable(mm))) || orphanIfAdopted(mm)):
 			// lived only in a child list kept in memory; the reload dropped it (K1, or K6 when its parent was a referrers answer)
 			if mm.Subject != "" {
 				known = append(known, "K6:second-pass")
